@@ -137,6 +137,7 @@ func (e *Engine) Discharge(cfg SolverCfg) {
 			}
 			q = c.Query([]*Term{neg}, ob.ModelTerms)
 		}
+		q = "; " + ob.Name + "\n; " + strings.Replace(ob.Clause, "\n", " ", -1) + "\n" + q
 		ob.QuerySz = len(q)
 		if len(q) > 4<<20 {
 			ob.Status = "failed"
@@ -161,6 +162,18 @@ func (e *Engine) Discharge(cfg SolverCfg) {
 		}(j)
 	}
 	wg.Wait()
+	// unreachable return sites: a contract may allow a number of them ("deadcode N",
+	// dead code present in the original source)
+	deadSeen := map[string]int{}
+	for _, ob := range e.Obls {
+		if ob.Cover && ob.Status == "failed" && ob.DeadGroup != "" {
+			deadSeen[ob.DeadGroup]++
+			if deadSeen[ob.DeadGroup] <= ob.DeadAllowed {
+				ob.Status = "proved"
+				ob.Solver = "allowed-deadcode"
+			}
+		}
+	}
 }
 
 func raceOne(ob *Obligation, file string, cfg SolverCfg) {
@@ -196,6 +209,7 @@ func raceOne(ob *Obligation, file string, cfg SolverCfg) {
 				ob.Status = "failed"
 				if r.status == "sat" {
 					ob.Model = r.out
+					ob.ModelValues = parseValues(r.out, ob.ModelNames)
 				}
 			}
 			return true
@@ -237,4 +251,96 @@ func firstLines(s string, n int) string {
 		ls = ls[:n]
 	}
 	return strings.Join(ls, " | ")
+}
+
+// parseValues reads the (get-value ...) answer: a list of (term value) pairs in
+// the order asked. Values are returned as decimal strings (ints, bytes) or
+// "true"/"false".
+func parseValues(out string, names []string) map[string]string {
+	res := map[string]string{}
+	k := strings.Index(out, "\n")
+	if k < 0 || len(names) == 0 {
+		return res
+	}
+	body := strings.TrimSpace(out[k+1:])
+	if !strings.HasPrefix(body, "(") {
+		return res
+	}
+	// split top-level pairs
+	depth := 0
+	start := -1
+	var pairs []string
+	for i := 0; i < len(body); i++ {
+		switch body[i] {
+		case '|':
+			i++
+			for i < len(body) && body[i] != '|' {
+				i++
+			}
+		case '(':
+			depth++
+			if depth == 2 {
+				start = i
+			}
+		case ')':
+			if depth == 2 && start >= 0 {
+				pairs = append(pairs, body[start:i+1])
+				start = -1
+			}
+			depth--
+		}
+	}
+	for i, p := range pairs {
+		if i >= len(names) {
+			break
+		}
+		// value = last s-expression of the pair
+		p = strings.TrimSpace(p[1 : len(p)-1])
+		val := lastSexp(p)
+		res[names[i]] = normValue(val)
+	}
+	return res
+}
+
+func lastSexp(p string) string {
+	p = strings.TrimSpace(p)
+	if strings.HasSuffix(p, ")") {
+		depth := 0
+		for i := len(p) - 1; i >= 0; i-- {
+			switch p[i] {
+			case ')':
+				depth++
+			case '(':
+				depth--
+				if depth == 0 {
+					return p[i:]
+				}
+			}
+		}
+	}
+	f := strings.Fields(p)
+	if len(f) == 0 {
+		return ""
+	}
+	return f[len(f)-1]
+}
+
+func normValue(v string) string {
+	v = strings.TrimSpace(v)
+	if strings.HasPrefix(v, "#x") {
+		var n int64
+		fmt.Sscanf(v[2:], "%x", &n)
+		return fmt.Sprint(n)
+	}
+	if strings.HasPrefix(v, "#b") {
+		var n int64
+		for _, c := range v[2:] {
+			n = n*2 + int64(c-'0')
+		}
+		return fmt.Sprint(n)
+	}
+	if strings.HasPrefix(v, "(-") {
+		return "-" + strings.TrimSpace(strings.Trim(v[2:], " )"))
+	}
+	return v
 }
